@@ -35,7 +35,7 @@ Lemma ttoks_binary e t l r : as_binary e = Some (Some t, l, r) ->
 Proof.
   intros H. unfold ttoks.
   destruct e; try discriminate H; cbn [as_binary] in H;
-    try (destruct k; try discriminate H); injection H as <- <- <-;
+    try (destruct k; try discriminate H); try (destruct s; try discriminate H); injection H as <- <- <-;
     cbn [aprint]; rewrite !ttoks_app; reflexivity.
 Qed.
 
@@ -67,12 +67,13 @@ Proof. destruct o; intros H; try discriminate H; reflexivity. Qed.
 Lemma kind_binary e t l r : as_binary e = Some (Some t, l, r) -> ref_kind t = KBinary /\ hdef e = ref_def t.
 Proof.
   intros H. destruct e; try discriminate H; cbn [as_binary] in H;
-    try (destruct k; try discriminate H); injection H as <- <- <-.
+    try (destruct k; try discriminate H); try (destruct s; try discriminate H); injection H as <- <- <-.
   - destruct o; split; reflexivity.
   - split; reflexivity.
   - split; reflexivity.
   - split; reflexivity.
   - destruct neg; split; reflexivity.
+  - split; reflexivity.
   - split; reflexivity.
 Qed.
 
@@ -157,7 +158,7 @@ Fixpoint lastk (e : expr) : tok_kind :=
   | EGroup _ => KClose BRound
   | ENested _ _ => KClose BCurly
   | EReapply x => lastk x
-  | EBin _ _ r | EAnd _ r | EOr _ r | EList _ _ r | ECond _ _ r | EElse _ r => lastk r
+  | EBin _ _ r | EAnd _ r | EOr _ r | EList _ _ r | ECond _ _ r | EElse _ r | ESeq _ _ r => lastk r
   | _ => KValue
   end.
 
@@ -175,7 +176,7 @@ Lemma efrag_binary lvl e t l r : efrag lvl e = true -> as_binary e = Some (t, l,
   efrag lvl l = true /\ efrag lvl r = true.
 Proof.
   intros F H. destruct e; try discriminate H; cbn [as_binary] in H;
-    try (destruct k); injection H as <- <- <-; cbn [efrag] in F;
+    try (destruct k); try (destruct s; try discriminate H); injection H as <- <- <-; cbn [efrag] in F;
     repeat (apply andb_true_iff in F; destruct F as [F ?]); auto.
 Qed.
 
@@ -206,6 +207,7 @@ Proof.
   - eapply ShGroup. reflexivity.
   - eapply ShBin. reflexivity.
   - eapply ShBin. reflexivity.
+  - destruct s; [eapply ShBin; reflexivity|discriminate F].
   - eapply ShNested. reflexivity.
   - eapply ShReapply. reflexivity.
 Qed.
@@ -214,7 +216,7 @@ Lemma eitems_binary e t l r off : as_binary e = Some (Some t, l, r) ->
   eitems e off = eitems l off ++ IBinary (hdef e) (Some (off + ntoks l + 1)) :: eitems r (off + ntoks l + 3).
 Proof.
   intros H. destruct e; try discriminate H; cbn [as_binary] in H;
-    try (destruct k; try discriminate H); injection H as <- <- <-; reflexivity.
+    try (destruct k; try discriminate H); try (destruct s; try discriminate H); injection H as <- <- <-; reflexivity.
 Qed.
 
 Lemma rtree_binary e t l r off : as_binary e = Some (Some t, l, r) ->
@@ -222,13 +224,13 @@ Lemma rtree_binary e t l r off : as_binary e = Some (Some t, l, r) ->
   = RBin (hdef e) (Some (off + ntoks l + 1)) (rtree_of_expr l off) (rtree_of_expr r (off + ntoks l + 3)).
 Proof.
   intros H. destruct e; try discriminate H; cbn [as_binary] in H;
-    try (destruct k; try discriminate H); injection H as <- <- <-; reflexivity.
+    try (destruct k; try discriminate H); try (destruct s; try discriminate H); injection H as <- <- <-; reflexivity.
 Qed.
 
 Lemma lastk_binary e t l r : as_binary e = Some (t, l, r) -> lastk e = lastk r.
 Proof.
   intros H. destruct e; try discriminate H; cbn [as_binary] in H;
-    try (destruct k); injection H as <- <- <-; reflexivity.
+    try (destruct k); try (destruct s; try discriminate H); injection H as <- <- <-; reflexivity.
 Qed.
 
 (* ---- the items of the printed tokens ---- *)
@@ -265,7 +267,7 @@ Proof.
     replace (S (i + ntoks x)) with (i + ntoks x + 1) by lia.
     apply option_map_ext. intros R. rewrite <- !app_assoc. reflexivity.
   - (* group *)
-    cbn [efrag] in F. rewrite ttoks_group. cbn [app]. rewrite items_open, <- app_assoc.
+    cbn [efrag] in F. apply andb_true_iff in F. destruct F as [_ F]. rewrite ttoks_group. cbn [app]. rewrite items_open, <- app_assoc.
     rewrite (IH x ltac:(cbn [size]; lia) F).
     cbn [app]. rewrite items_close, !option_map_map. cbn [lastk eitems]. rewrite ntoks_group.
     replace (S (S i + ntoks x)) with (i + S (ntoks x + 1)) by lia.
@@ -299,7 +301,7 @@ Proof.
   - (* binary operator *)
     destruct (efrag_binary _ _ _ _ _ F Hb) as [Fl Fr]. destruct (kind_binary _ _ _ _ Hb) as [Hk Hd].
     assert (Sl : size l < size e /\ size r < size e).
-    { destruct e; try discriminate Hb; cbn [as_binary] in Hb; try (destruct k; try discriminate Hb);
+    { destruct e; try discriminate Hb; cbn [as_binary] in Hb; try (destruct k; try discriminate Hb); try (destruct s; try discriminate Hb);
         injection Hb as <- <- <-; cbn [size]; lia. }
     rewrite (ttoks_binary _ _ _ _ Hb), <- app_assoc. rewrite (IH l (proj1 Sl) Fl).
     cbn [app]. rewrite items_space, (items_binary _ _ _ _ _ Hk), items_space.
@@ -345,10 +347,13 @@ Proof.
       pose proof (IHe1 off ltac:(assumption)). pose proof (IHe2 (off + ntoks e1 + 1) ltac:(assumption)). lia.
     + match goal with |- _ <= ntoks ?E => rewrite (ntoks_binary E _ _ _ eq_refl) end; cbn [eitems]; rewrite app_length; cbn [length].
       pose proof (IHe1 off ltac:(assumption)). pose proof (IHe2 (off + ntoks e1 + 3) ltac:(assumption)). lia.
-  - cbn [eitems]. rewrite ntoks_group. cbn [length]. rewrite app_length. cbn [length]. specialize (IHe (off + 1) F). lia.
+  - cbn [eitems]. rewrite ntoks_group. cbn [length]. rewrite app_length. cbn [length]. pose proof (IHe (off + 1) ltac:(assumption)). lia.
   - match goal with |- _ <= ntoks ?E => rewrite (ntoks_binary E _ _ _ eq_refl) end; cbn [eitems]; rewrite app_length; cbn [length].
     pose proof (IHe1 off ltac:(assumption)). pose proof (IHe2 (off + ntoks e1 + 3) ltac:(assumption)). lia.
   - match goal with |- _ <= ntoks ?E => rewrite (ntoks_binary E _ _ _ eq_refl) end; cbn [eitems]; rewrite app_length; cbn [length].
+    pose proof (IHe1 off ltac:(assumption)). pose proof (IHe2 (off + ntoks e1 + 3) ltac:(assumption)). lia.
+  - destruct s; [|discriminate].
+    match goal with |- _ <= ntoks ?E => rewrite (ntoks_binary E _ _ _ eq_refl) end; cbn [eitems]; rewrite app_length; cbn [length].
     pose proof (IHe1 off ltac:(assumption)). pose proof (IHe2 (off + ntoks e1 + 3) ltac:(assumption)). lia.
   - cbn [eitems]. rewrite ntoks_nested. cbn [length]. rewrite app_length. cbn [length]. pose proof (IHe (off + 2) ltac:(assumption)). lia.
   - cbn [eitems]. rewrite ntoks_reapply. cbn [length]. pose proof (IHe (off + 2) ltac:(assumption)). lia.
